@@ -23,6 +23,9 @@ type vPair struct{ plain, cipher []byte }
 
 var vPairs []vPair
 
+// vStandIn selects the concrete stand-in cipher (filler history, bulk meta data)
+var vStandIn bool
+
 func vEq(a, b []byte) bool {
 	if len(a) != len(b) {
 		return false
@@ -40,12 +43,7 @@ func vEncrypt(ciphertext, plaintext *bytes.Buffer) error {
 	p := append([]byte(nil), plaintext.Bytes()...)
 	plaintext.Reset()
 	var c []byte
-	conc := true
-	for _, b := range p {
-		if !vrt.IsConcrete(int(b)) {
-			conc = false
-		}
-	}
+	conc := vStandIn || len(p) > 200
 	if conc {
 		// fully concrete plaintext (filler history, bulk meta data): a concrete stand-in cipher keeps the run cheap
 		c = make([]byte, len(p)+1)
@@ -107,6 +105,7 @@ func (h *vHash) BlockSize() int              { return 64 }
 
 func vInstall() {
 	vPairs, vSeenRefs, vRefSeq = nil, nil, 0
+	vStandIn = false
 	vrt.Stub("(*perkeep.org/pkg/blobserver/encrypt.storage).encryptBlob", vEncrypt)
 	vrt.Stub("(*perkeep.org/pkg/blobserver/encrypt.storage).decryptBlob", vDecrypt)
 	vrt.Stub("perkeep.org/pkg/blob.RefFromBytes", vRefOf)
@@ -260,12 +259,14 @@ func VK11dCompaction() {
 	s := vNew(blobs, meta, index)
 	ctx := context.Background()
 	// SmallMetaCountLimit small meta blobs already exist (concrete filler history)
+	vStandIn = true
 	for i := 0; i < SmallMetaCountLimit; i++ {
 		p := []byte{byte(i), 7}
 		br := vRefOf(p)
 		_, err := s.ReceiveBlob(ctx, br, bytes.NewReader(p))
 		vrt.Assert(err == nil, "filler receive")
 	}
+	vStandIn = false
 	vrt.Assert(len(meta.Refs) == SmallMetaCountLimit, "one small meta blob per received blob")
 	fail := vrt.Choice(3) // 0: healthy, 1: the packed meta upload fails, 2: the removal of the small ones fails
 	calls := 0
